@@ -15,10 +15,24 @@ import (
 )
 
 type Abort struct {
-	Cond *Term
-	Kind string // panic | unsupported | unwind | wouldblock | deadlock
-	Site string
-	Msg  string
+	Cond  *Term
+	Kind  string // panic | unsupported | unwind | wouldblock | deadlock
+	Site  string
+	Msg   string
+	Where string // innermost function of the module under test on the call stack
+}
+
+// repoFrame returns the innermost non-harness function of the module under test.
+func (in *Interp) repoFrame() string {
+	for i := len(in.callStack) - 1; i >= 0; i-- {
+		k := in.callStack[i]
+		if strings.Contains(k, "asyncmachine-go") && !strings.Contains(k, ".verif") && !strings.Contains(k, ".Verif") {
+			k = strings.ReplaceAll(k, "github.com/pancsta/asyncmachine-go/pkg/", "")
+			k = strings.ReplaceAll(k, "github.com/pancsta/asyncmachine-go/", "")
+			return k
+		}
+	}
+	return ""
 }
 
 type Assertion struct {
@@ -59,6 +73,7 @@ type Interp struct {
 	known      []KnownRegion
 	splits     []*Term
 	feasSolver *Solver
+	sinceVar   *Term
 	// fork mode (path-by-path execution): every symbolic branch consumes one decision
 	forkMode  bool
 	decisions []bool
@@ -215,11 +230,11 @@ func (in *Interp) abort(g *Term, kind, site, msg string) {
 		if !in.decide(g) {
 			return
 		}
-		in.aborts = append(in.aborts, Abort{Cond: tTrue, Kind: kind, Site: site, Msg: msg})
+		in.aborts = append(in.aborts, Abort{Cond: tTrue, Kind: kind, Site: site, Msg: msg, Where: in.repoFrame()})
 		in.abortAny = tTrue
 		panic(pathEnd{kind + ": " + msg})
 	}
-	in.aborts = append(in.aborts, Abort{Cond: g, Kind: kind, Site: site, Msg: msg})
+	in.aborts = append(in.aborts, Abort{Cond: g, Kind: kind, Site: site, Msg: msg, Where: in.repoFrame()})
 	in.abortAny = mkOr(in.abortAny, g)
 	if in.trace {
 		fmt.Fprintf(os.Stderr, "ABORT[%s] %s: %s  under %s\n", kind, site, msg, g.str(2))
